@@ -4,17 +4,30 @@
 // ExpandMsgXmd is used through its own contract (field/hash); the big.Int conversions and the pool are opaque
 // calls. Clauses: totality (every slice, index and make operation is a discharged obligation), the number of
 // elements returned, and "an error is returned exactly for inadmissible parameters" (count*L > 255*32 or
-// len(DST) > 255), with L = 16 + ceil(bits/8) = 48 for this field.
+// len(DST) > 255), with L = 16 + ceil(bits/8) = 48 for this field; and what each element is made of (RFC 9380 5.2
+// step 5-7): element i is set - by SetBigInt, whose contract "z = v mod q" is proved under C08 - from the integer
+// OS2IP(uniform_bytes[L*i : L*(i+1)]), the big-endian value of the i-th window of L bytes of what ExpandMsgXmd returned,
+// once for every i < count (checked before every call of SetBigInt; bewin(b, off, n) = big.frombytes of b[off : off+n]).
 
 package fr
 
 //@ func Hash
-//@ layer opaque Element
+//@ layer opaque Element bigint big.Int
 //@ option opaque-calls
+//@ smt (define-fun-rec big.frombytes ((a (Array Int Int)) (off Int) (n Int)) Int (ite (<= n 0) 0 (+ (* 256 (big.frombytes a off (- n 1))) (select a (+ off (- n 1))))))
 //@ requires 0 <= count && count <= 4294967296
+//@ ghost converted = 0
+//@ cut before call SetBigInt #*
+//@ + optional
+//@ + invariant[window] converted == i && same(callarg0, &res[i]) && *callarg1 == bewin(pseudoRandomBytes, i*48, 48)
+//@ cut after call SetBigInt #*
+//@ + optional
+//@ + ghost converted = converted + 1
 //@ loop 0
-//@ + invariant[index] 0 <= i && i <= count && len(res) == count && len(pseudoRandomBytes) == count * 48
+//@ + havoc converted
+//@ + invariant[index] 0 <= i && i <= count && len(res) == count && len(pseudoRandomBytes) == count * 48 && converted == i
 //@ ensures[length] isnil(result1) ==> len(result0) == count
+//@ ensures[every-element-set] isnil(result1) ==> converted == count
 //@ ensures[accepted] isnil(result1) ==> count * 48 <= 8160 && len(dst) <= 255
 //@ ensures[refused] !isnil(result1) ==> count * 48 > 8160 || len(dst) > 255
 //@ end
